@@ -280,6 +280,23 @@ def main(tier, replay=None):
             cmds.append(r2.cmd)
             for c in r2.replays:
                 devcases.setdefault(B.case_key(c), []).append(c)
+    if tier == "thorough":
+        # 4..6 files: sampled projects, sampled permutations, each invocation twice
+        for nf, n in ((4, 500), (6, 300)):
+            fs = ", ".join(str(i) for i in range(1, nf + 1))
+            sc, sdv, st2, tr2 = B.sampled_cases(
+                gd, "c16_%d" % nf, nf,
+                "RandomSubset(%d, [1..%d -> [1..2 -> A16({%s})]])" % (n, nf, fs),
+                "RandomSubset(4, PermsOf({%s}))" % fs,
+                '{ [dir |-> << %s >>, nm |-> << %s >>] }' % (", ".join("0" for i in range(nf)),
+                                                            ", ".join('"%s"' % "abcdefgh"[i] for i in range(nf))),
+                "CmdBuild", "Cwd0", 2, opendevs, cmds)
+            states += st2
+            trans += tr2
+            for k, c in sc.items():
+                cases.setdefault(k, c)
+            for k, v in sdv.items():
+                devcases.setdefault(k, []).extend(v)
     keys = B.choose(cases, lambda k: nontrivial(cases[k]), len(cases), random.Random(sd))
     easy = [k for k in keys if not nontrivial(cases[k])]
     keys = easy[:budget // 20] + [k for k in keys if nontrivial(cases[k])] + easy[budget // 20:]
